@@ -309,7 +309,7 @@ META = {
     },
     "C15": {
         "technique": "property-based round-trip and differential testing of every codec against an independently written reference codec; bit-flip sensitivity under three verifiers",
-        "text": "Generated values (boundary sets and random bits) for every persisted or transmitted structure are encoded by the repository and by the reference codec and compared byte for byte, decoded back, offered at wrong lengths, concatenated into streams and truncated; signing bytes must carry the ASCII name prefix and differ across values and types; signing must be deterministic and any single-bit change of message, signature or key must fail glow.Verify, libsecp256k1 on independent Keccak, and a math/big verifier; JSON transport is checked in memory and end to end through a live server and its data file. Exploration only.",
+        "text": "Generated values (boundary sets and random bits) for every persisted or transmitted structure are encoded by the repository and by the reference codec and compared byte for byte, decoded back, offered at wrong lengths, concatenated into streams and truncated; signing bytes must carry the ASCII name prefix and differ across values and types; signing must be deterministic and any single-bit change of message, signature or key must fail glow.Verify, libsecp256k1 on independent Keccak, and a math/big verifier; JSON transport is checked in memory and end to end through a live server and its data file; registered GCA keys from boundary sets (zero, white-space tails) must be in the key file byte for byte and survive a restart. Exploration only.",
         "note": "The reference codec (harness/ref/codec.go) was written from the README rules and struct layouts. Location lengths bounded by the formats' length fields.",
     },
     "C16": {
